@@ -197,6 +197,22 @@ let run_hist hfn zh (tys : string) (vals : string) (route : string) (ops : strin
           m.vm <- upd m.vm { vh_ty = ty; vh_val = VBytes v; vh_hook = None };
           add key "OK"; add ("spec_" ^ key) "OK"
         | _ -> add key "ERR"; add ("spec_" ^ key) "ERR")
+     | L [A "repoint"; A h; A k] ->
+       (* SetBacking on a view without a parent hook: the handle now stands for the tree (and the
+          value) of handle k; nothing else changes *)
+       let hi = int_of_string h and ki = int_of_string ("0x" ^ k) in
+       (match List.nth_opt m.hm.m_handles hi, List.nth_opt m.hm.m_handles ki,
+              List.nth_opt m.tm.m_handles hi, List.nth_opt m.tm.m_handles ki,
+              List.nth_opt m.vm hi, List.nth_opt m.vm ki with
+        | Some ha, Some hk, Some ta, Some tk, Some va, Some vk
+          when ha.h_ty = hk.h_ty && ha.h_hook = None && ta.h_hook = None && va.vh_hook = None
+               && (match ha.h_ty with TVector _ | TList _ | TContainer _ | TUnion _ | TBitvector _ | TBitlist _ -> true | _ -> false) ->
+          let upd l x = List.mapi (fun j y -> if j = hi then x else y) l in
+          m.hm <- { m.hm with m_handles = upd m.hm.m_handles { ha with h_back = hk.h_back } };
+          m.tm <- { m.tm with m_handles = upd m.tm.m_handles { ta with h_back = tk.h_back } };
+          m.vm <- upd m.vm { va with vh_val = vk.vh_val };
+          add key "OK"; add ("spec_" ^ key) "OK"
+        | _ -> add key "ERR"; add ("spec_" ^ key) "ERR")
      | L [A "iter"; A h] ->
        (* Iter(): the element count is fixed when the iterator is made; Next() is Get(i), i++ *)
        let hi = int_of_string h in
@@ -240,6 +256,7 @@ let run_hist hfn zh (tys : string) (vals : string) (route : string) (ops : strin
        let hd = List.nth m.hm.m_handles (int_of_string h) in
        m.snaps <- (hd.h_back, habs m.hm.m_store hd.h_back) :: m.snaps;
        add key "OK"
+     | L [A "summ"; A _; A _] -> add key "OK"  (* a summarised copy is made elsewhere: nothing changes *)
      | L [A "reinit"] | L [A "reinitx"] -> add key "OK"
      | L [A "memo"] -> add key (if check_memos hfn m then "OK" else "STALE")
      | L [A "count"; A h] ->
